@@ -169,6 +169,9 @@ class ApiAdapter:
             else:
                 keys = list(reversed(c)) if rev else list(c)
             return R('keys', [km.to_model(k) for k in keys])
+        if name == 'close':
+            c.close()
+            return R('none')
         if name == 'stats':
             h, m = c.stats(enable=bool(a['en']), reset=bool(a['rs']))
             return R('pair', [h, m])
